@@ -328,6 +328,19 @@ func partial(env Env, n ast.IsNode) (ast.IsNode, error) {
 			},
 		)
 	case ast.NodeTypeIsIn:
+		// `x is T in y` does not evaluate y unless x is a T (see isInEval): an error in y must
+		// not fail the node when x is known not to be a T, nor while x is still unknown
+		if left, err := partial(env, v.Left); err == nil {
+			if lv, ok := left.(ast.NodeValue); ok {
+				if uid, ok := lv.Value.(types.EntityUID); ok && !IsVariable(uid) && !IsIgnore(uid) && uid.Type != v.EntityType {
+					return ast.NodeValue{Value: types.False}, nil
+				}
+			}
+		} else if errors.Is(err, errVariable) {
+			if _, rerr := partial(env, v.Entity); rerr != nil && !errors.Is(rerr, errVariable) && !errors.Is(rerr, errIgnore) {
+				return v, nil
+			}
+		}
 		return tryPartial(env,
 			[]ast.IsNode{v.Left, v.Entity},
 			func(values []types.Value) Evaler {
